@@ -49,8 +49,10 @@ def run(chk):
                    node=node, fingerprint=f"memo:{name}")
     if chk.want("R14.2"):
         r14_2(chk, cr, fx, memos, mutators)
-        for name, info in sorted(MEMO.instance_memos(cr, "Crystal").items()):
+        im = MEMO.instance_memos(cr, "Crystal")
+        for name, info in sorted(im.items()):
             MEMO.check_memo_key(chk, "R14.2", CR, "Crystal", name, info)
+        MEMO.check_partial_removals(chk, "R14.2", CR, "Crystal", im)
     if chk.want("R14.3"):
         r14_3(chk, cr, fx, methods, writes, mutators, memos)
     if chk.want("R14.4"):
@@ -96,8 +98,10 @@ def crystal_memo_rule(chk, rid):
             mutators[fn.name] = ws
     chk.need(len(mutators) >= 2, f"expected >= 2 state-changing methods of Crystal, found {sorted(mutators)}")
     MEMO.check_mutators_invalidate(chk, rid, CR, "Crystal", memos, mutators, fx)
-    for name, info in sorted(MEMO.instance_memos(cr, "Crystal").items()):
+    im = MEMO.instance_memos(cr, "Crystal")
+    for name, info in sorted(im.items()):
         MEMO.check_memo_key(chk, rid, CR, "Crystal", name, info)
+    MEMO.check_partial_removals(chk, rid, CR, "Crystal", im)
 
 
 def r14_2(chk, cr, fx, memos, mutators):
